@@ -64,7 +64,10 @@ def main():
             continue
         v, detail = run(m)
         print('%-8s %-12s %s :: %s' % (m['id'], v, m['what'], detail.replace('\n', ' ')[:300]))
-        if v not in ('CAUGHT', 'CAUGHT-OTHER', 'QUIET-OK'):
+        if v == 'UNDECIDED' and m.get('undecided_ok'):
+            v = 'UNDECIDED-OK'      # a change of shape the extraction rules do not know: exit 2, never quiet
+            print('         (accepted: %s)' % m['undecided_ok'])
+        if v not in ('CAUGHT', 'CAUGHT-OTHER', 'QUIET-OK', 'UNDECIDED-OK'):
             bad += 1
     return 1 if bad else 0
 
